@@ -165,8 +165,10 @@ def r11_3(ctx, fx):
                detail=str([fn.path_sites(p) for _, _, p in bad]))
         # the NotifyProtocol flag passed equals the event's flag: Yes for None / CloseConnection{Yes} / failed delivery, No for CloseConnection{No}
         cc = fn.calls(r"Connection::close_connection$")
-        flags = sorted("|".join(sorted(fn.shape(c.args[1]))) for c in cc)
-        ctx.ob("R11.3", "Connection::start/close-flags", flags.count("No") == 1 and flags.count("Yes") >= 2, site=fn.site(fn.entry), cfg=fx.cfg, detail=str(flags))
+        # (`CloseConnection { notify } => close_connection(notify)` hands the event's own flag on: the same mapping without literals)
+        flags = sorted("event.notify" if re.search(r"@CloseConnection\.(notify|0)$", fn.origin(c.args[1])) else "|".join(sorted(fn.shape(c.args[1]))) for c in cc)
+        okf = (flags.count("No") == 1 and flags.count("Yes") >= 2 and "event.notify" not in flags) or (flags.count("event.notify") == 1 and flags.count("No") == 0 and flags.count("Yes") >= 1)
+        ctx.ob("R11.3", "Connection::start/close-flags", okf and all(x in ("Yes", "No", "event.notify") for x in flags), site=fn.site(fn.entry), cfg=fx.cfg, detail=str(flags))
         sws = [sw for sw in fn.discr_switches() if sw[2] and sw[2].endswith("NotifyProtocol")]
         for c in cc:
             if fn.shape(c.args[1]) == {"No"}:
